@@ -16,7 +16,7 @@ func init() { Registry["C06"] = C06 }
 func C06(p *ir.Program, r *report.R) {
 	c := C{p, r}
 	r.Floor = 30
-	r.Explain = "Decided (very narrow; the conservation equation itself is arithmetic over runtime values and a cgo curve library and is ADDED after seeded-change testing: Amount width: BigInt2Hash's byte loop runs while i < 8 and a value still positive afterwards is rejected with no companion test other than i == 8 / i >= 8 (no truncation modulo 2^64). NOT decided): (B1) an unbalanced confidential transaction cannot be accepted unless the acceptance path skips the balance/range checks — every nil return of UTXOTransaction.CheckBasic is dominated by successful checkTxSemantic and checkCommitEqual, and, as all-paths properties, by checkRctSigData when confidential parts exist, by the range-proof check when there are confidential outputs and by the ring-signature check when there are confidential inputs; checkCommitEqual's nil return is dominated by equality of the input and output commitment sums (both non-empty) and every account-side input/output iteration passes the amount-commitment equality; block processing admits a confidential transaction only through a cache hit or a successful basic check, processBlock stops when verification fails, Process checks fee adequacy (CheckStoreState) before executing; (B2) a failed call moves nothing but fees — the snapshot is taken after preTransit and before transitInputs, refundGas reverts to that same snapshot on every vmerr path before any refund, all balance checks of transitInputs precede the first debit. NOT decided: fee arithmetic, EVM/WASM transfers, conservation sums, Bulletproof/commitment soundness."
+	r.Explain = "Decided (very narrow; the conservation equation itself is arithmetic over runtime values and a cgo curve library and is NOT decided): (B1) an unbalanced confidential transaction cannot be accepted unless the acceptance path skips the balance/range checks — every nil return of UTXOTransaction.CheckBasic is dominated by successful checkTxSemantic and checkCommitEqual, and, as all-paths properties, by checkRctSigData when confidential parts exist, by the range-proof check when there are confidential outputs and by the ring-signature check when there are confidential inputs; checkCommitEqual's nil return is dominated by equality of the input and output commitment sums (both non-empty) and every account-side input/output iteration passes the amount-commitment equality; block processing admits a confidential transaction only through a cache hit or a successful basic check, processBlock stops when verification fails, Process checks fee adequacy (CheckStoreState) before executing; (B2) a failed call moves nothing but fees — the snapshot is taken after preTransit and before transitInputs, refundGas reverts to that same snapshot on every vmerr path before any refund, all balance checks of transitInputs precede the first debit. ADDED after seeded-change testing: amount width — BigInt2Hash's byte loop runs while i < 8 and a value still positive afterwards is rejected with no companion test other than i == 8 / i >= 8 (no truncation modulo 2^64); CheckStoreState and checkState admit an account input only when the balance OF THE TRANSACTION'S TOKEN covers the amount and, for non-native tokens, the native balance covers the fee; checkRctSigData succeeds only with exactly one output commitment per confidential output and one ring signature per confidential input; payTransferGas reports 0 on its error path. NOT decided: fee arithmetic, EVM/WASM transfers, conservation sums, Bulletproof/commitment soundness."
 	r.Trusted = []string{"ringct / xcrypto (cgo)", "CalNewAmountGas fee schedule"}
 
 	// ---- B1: CheckBasic ---------------------------------------------------------
@@ -333,6 +333,72 @@ func C06(p *ir.Program, r *report.R) {
 			}
 		}
 		r.Check("K11", name+"/single-success-return", p.Pos(fn.Pos()), nOK == 1, fmt.Sprintf("%d success returns", nOK))
+	}
+
+
+	// ---- the account side of a confidential transaction is covered by the right balance -----------
+	// CheckStoreState (block path) and checkState (mempool path) admit an account input only when the
+	// sender holds at least input.Amount OF THE TRANSACTION'S TOKEN, and — for a non-native token — the
+	// native balance covers the fee. Sibling agreement: both functions, same operands.
+	for _, fnn := range []string{"UTXOTransaction.CheckStoreState", "UTXOTransaction.checkState"} {
+		fn := p.Func("types", fnn)
+		name := "types.(*UTXOTransaction)." + strings.TrimPrefix(fnn, "UTXOTransaction.")
+		n := 0
+		for _, call := range ir.Calls(fn, "big.Int.Add") {
+			if !ir.Match("*.(*types.AccountInput)#0.Amount", Arg(call, 2)) {
+				continue
+			}
+			n++
+			in := call.(ssa.Instruction)
+			amt := Arg(call, 2)
+			c.Guards(name, "admit account input", in,
+				G{"token-balance-covers-amount", "le(0,big.Int.Cmp(types.State.GetTokenBalance(*,*,tx.TokenID)," + amt + "))"})
+			c.GuardsAny(name, "admit account input", "native-balance-covers-fee-for-tokens", in,
+				"common.IsLKC(tx.TokenID)", "le(0,big.Int.Cmp(types.State.GetBalance(*,*),tx.Fee))")
+		}
+		c.MustFind("K1", name+"/admit account input", fn, n, "aggregation of an account input amount")
+	}
+
+	// ---- hidden output bookkeeping has one entry per confidential output ---------------------------
+	// checkCommitEqual sums every OutPk entry while the range proof and the stored outputs cover the
+	// first utxoOutNum: the two counts must be EQUAL (an extra commitment to a negative amount would
+	// balance an inflated output), likewise one MG signature per confidential input.
+	{
+		fn := p.Func("types", "UTXOTransaction.checkRctSigData")
+		name := "types.(*UTXOTransaction).checkRctSigData"
+		n := 0
+		for _, rt := range ir.Returns(fn) {
+			if ir.AbstractResult(rt.Results[0]) != "nil" {
+				continue
+			}
+			n++
+			c.Guards(name, "return nil", rt.Instr,
+				G{"one-commitment-per-output", ir.EqPat("atomic.Value.Load(&tx.utxoOutNum).(int)", "len(tx.RCTSig.RctSigBase.OutPk)")},
+				G{"one-ring-signature-per-input", ir.EqPat("atomic.Value.Load(&tx.utxoInNum).(int)", "len(tx.RCTSig.P.MGs)")},
+				G{"outputs-within-proof-capacity", "le(atomic.Value.Load(&tx.utxoOutNum).(int),*)"})
+		}
+		c.MustFind("K1", name+"/return nil", fn, n, "nil return")
+	}
+
+	// ---- transfer gas that could not be charged is reported as zero -----------------------------------
+	// postTransit refunds/credits with the transfer gas payTransferGas reports; on the error path
+	// nothing was deducted, so the amount must be 0.
+	{
+		fn := p.Func("app", "processTransaction.payTransferGas")
+		name := "app.(*processTransaction).payTransferGas"
+		n := 0
+		for _, rt := range ir.Returns(fn) {
+			if len(rt.Results) != 2 || ir.AbstractResult(rt.Results[1]) == "nil" {
+				continue
+			}
+			fs := ir.FactsAt(rt.Instr)
+			if ir.HasFact(fs, "eq(app.processTransaction.useGas(*),nil)") {
+				continue // success path returning the (nil) error variable
+			}
+			n++
+			r.Check("K1", name+"/error-return/amount-zero", p.InstrPos(rt.Instr), ir.Render(rt.Results[0]) == "0", "on the error path the reported transfer gas is 0: "+ir.Render(rt.Results[0]))
+		}
+		c.MustFind("K1", name+"/error-return", fn, n, "error return")
 	}
 
 }
